@@ -569,7 +569,7 @@ func crashCampaign(prop string, r *Result, quick, thorough int, double bool) {
 	per := (n + workers - 1) / workers
 	parallel(workers, workers, func(w int) {
 		rng := newRand(uint64(9000 + w))
-		for i := w*per - 4; i < (w+1)*per && i < n && !expired(); i++ {
+		for i := w*per - 5; i < (w+1)*per && i < n && !expired(); i++ {
 			if i < 0 && w != 0 {
 				continue
 			}
@@ -585,6 +585,17 @@ func crashCampaign(prop string, r *Result, quick, thorough int, double bool) {
 				g.ContMode, g.PGroup = "fail0", 0.5 // continuous checks whose (initial) run fails
 			}
 			ps := g.plan()
+			if i == -5 {
+				// stored witness of fixed defect D29: a block whose ContChecks always fail (tick far away: 30 ms) behind passing
+				// PreChecks. Uninterrupted the initial run gates the block: Failed. A crash between the PreChecks' Completed write and
+				// the cont result used to resume the block WITHOUT that gate: it finished before the first tick, plan Completed.
+				ps = &PlanSpec{Post: &GroupSpec{Actions: []ActSpec{{Tag: "d29.ppost"}}},
+					Blocks: []BlockSpec{{Conc: 2, Tol: 0, Pre: &GroupSpec{Actions: []ActSpec{{Tag: "d29.pre", Retries: 2}}},
+						Cont: &GroupSpec{DelayUs: 30000, Actions: []ActSpec{{Tag: "d29.cont", Script: []Outcome{{Resp: "nil", Err: "permanent", DelayUs: 4000}}}}},
+						Post: &GroupSpec{Actions: []ActSpec{{Tag: "d29.post"}}},
+						Seqs: []SeqSpec{{Actions: []ActSpec{{Tag: "d29.a", Retries: 1}, {Tag: "d29.b", Retries: 2}}}}}}}
+				r.count("corpus")
+			}
 			if i == -4 {
 				// durably Failed sequences must be counted once when the block is re-entered: tolerance 1, one failing sequence first,
 				// two more that must still run after any crash (seeded change C03-D)
